@@ -7,6 +7,7 @@ import (
 	"os/exec"
 	"path/filepath"
 	"sort"
+	"strconv"
 	"strings"
 	"sync"
 	"time"
@@ -389,7 +390,7 @@ func Drive(o *DriveOpts) int {
 	deadline := t0.Add(o.WallCap)
 	exit := 0
 	var outs []*phaseOut
-	nViol := 0
+	nViol, unreproduced := 0, 0
 	var violLines []string
 	knownHits := map[string]int64{}
 	for _, ph := range o.Phases {
@@ -485,12 +486,23 @@ func Drive(o *DriveOpts) int {
 					continue
 				}
 				ev.execs = 0
-				min := ev.shrink(c.run, c.trace, c.key, 400, 150*time.Second)
+				budget := 150 * time.Second
+				if v, err := strconv.Atoi(os.Getenv("VERIF_SHRINK_SECONDS")); err == nil && v > 0 {
+					budget = time.Duration(v) * time.Second // tooling knob (tools/run_seeded.py); the registered commands do not set it
+				}
+				min := ev.shrink(c.run, c.trace, c.key, 400, budget)
 				final, err := ev.eval(c.run, min, true)
 				if err != nil || keyOf(final) != c.key {
 					// fall back to the unshrunk trace
 					min = c.trace
-					final, _ = ev.eval(c.run, min, true)
+					final, err = ev.eval(c.run, min, true)
+					if err != nil || keyOf(final) != c.key {
+						// not repeatable in a process of its own: not a result of this machinery
+						fmt.Printf("INFRA: the violation %s of run %d did not reproduce when the run was re-executed alone\n", c.key, c.run)
+						unreproduced++
+						nViol--
+						continue
+					}
 				}
 				rf := &ReplayFile{Property: o.Public, Workload: ph.Key, Race: ph.Race, Tier: o.Tier, VerifSeed: o.Seed, Run: c.run,
 					RunSeed: RunSeedFor(o.Seed, ph.Key, c.run), RepoHead: head, RepoDirty: dirty, Violation: c.viol, Trace: min,
@@ -522,8 +534,13 @@ func Drive(o *DriveOpts) int {
 	for _, l := range violLines {
 		fmt.Println(l)
 	}
-	if nViol > 0 && exit == 0 {
+	// A violation listed above was re-executed alone in a new process and reproduced: it stands whatever else
+	// went wrong in the batch (a change that makes library state leak from one run into the next also trips the
+	// determinism audit). Exit 2 is reserved for batches without any reproduced violation.
+	if nViol > 0 {
 		exit = 1
+	} else if unreproduced > 0 {
+		exit = 2
 	}
 	if err := writeEvidence(o, outs, nViol, knownHits, time.Since(t0).Seconds()); err != nil {
 		fmt.Println("INFRA: evidence:", err)
